@@ -59,7 +59,13 @@ def main(argv):
             for pooling in (False, True):
                 for rep in range(30 if ctx.thorough else 6):
                     S = Scripted(rng)
-                    hc = HashClient(servers, socket_module=S.sm, key_prefix=pfx, use_pooling=pooling, default_noreply=False, retry_attempts=0, dead_timeout=0)
+                    if rep % 3 == 2 and len(servers) > 1:
+                        # the same server set reached by growing the client: built with the first server only, the others added one by one
+                        hc = HashClient(servers[:1], socket_module=S.sm, key_prefix=pfx, use_pooling=pooling, default_noreply=False, retry_attempts=0, dead_timeout=0)
+                        for extra_ in servers[1:]:
+                            hc.add_server(extra_)
+                    else:
+                        hc = HashClient(servers, socket_module=S.sm, key_prefix=pfx, use_pooling=pooling, default_noreply=False, retry_attempts=0, dead_timeout=0)
                     if rep % 3 == 1:
                         # an attempt to add a server that cannot be built (a malformed address: whatever this tree refuses) fails and leaves the server set as it was
                         for bad_spec in ("10.0.0.9:", "cache.example:port", ["h:", "h9:11x"][(rep // 3) % 2]):
@@ -249,6 +255,63 @@ def main(argv):
                             want.setdefault(expected_server(k), []).append(inner(k))
                         real = {name: ks_here for name, ks_here in per_server.items()}
                         metas.append((dict(case0, keys=repr(keys)[:100]), real, pfx))
+    # ---- a server set that CHANGES through failover: a server is taken out after a failure and comes back after dead_timeout; whichever operation
+    #      happens to be the first one after that - single-key or multi-key - all operations agree on where a key lives: what set_many wrote is
+    #      found by get / gets / get_many, what set wrote is found by get_many --------------------------------------------------------------------
+    import pymemcache.client.hash as hash_mod_
+    from common import FakeClock
+    fclock = [1000.0]
+    real_time_ = hash_mod_.time
+    hash_mod_.time = FakeClock(lambda: fclock[0])
+    try:
+        for servers in ([("h1", 11211), ("h2", 11211)], [("a", 1), ("b", 2), ("c", 3)], ["/tmp/a.sock", ("h2", 11211)]):
+            for pooling in (False, True):
+                for first_after in ("set_many", "get_many", "set", "get", "delete_many"):
+                    for down_i in range(len(servers)):
+                        S = Scripted(rng)
+                        hc = HashClient(servers, socket_module=S.sm, use_pooling=pooling, default_noreply=False, retry_attempts=0, retry_timeout=1, dead_timeout=30)
+                        S.begin_call(0, {})
+                        ks = ["fk%d" % i for i in range(24)]
+                        down = servers[down_i]
+                        case0 = {"servers": servers, "pooling": pooling, "server_that_failed": repr(down), "first_operation_after_it_came_back": first_after}
+                        ctx.case(("failover-agreement", repr(servers), pooling, first_after, down_i))
+                        ctx.count("failover-agreement-histories")
+                        S.world.refuse_addrs = {down if isinstance(down, tuple) else down}
+                        for k in ks:                       # some of these fail and take the server out
+                            try:
+                                hc.get(k)
+                            except Exception:
+                                pass
+                        S.world.refuse_addrs = set()
+                        fclock[0] += 100                   # well beyond dead_timeout: the next routed operation brings it back
+                        vals = {k: b"v-" + k.encode() for k in ks}
+                        try:
+                            if first_after == "set_many":
+                                hc.set_many(vals, noreply=False)
+                            elif first_after == "get_many":
+                                hc.get_many(ks)
+                                hc.set_many(vals, noreply=False)
+                            elif first_after == "set":
+                                for k in ks:
+                                    hc.set(k, vals[k], noreply=False)
+                            elif first_after == "get":
+                                hc.get(ks[0])
+                                hc.set_many(vals, noreply=False)
+                            else:
+                                hc.delete_many(ks, noreply=False)
+                                hc.set_many(vals, noreply=False)
+                            singles = {k: hc.get(k) for k in ks}
+                            many = hc.get_many(ks)
+                            cas_ = {k: hc.gets(k)[0] for k in ks}
+                        except Exception as e:
+                            ctx.violation("an operation raised on healthy servers after a server came back", dict(case0, error=repr(e)[:100]), tags=["failover-agreement"])
+                            continue
+                        lost = sorted(k for k in ks if singles[k] != vals[k] or many.get(k) != vals[k] or cas_[k] != vals[k])
+                        if lost:
+                            ctx.violation("after a server went out and came back, what was written is not found by get / gets / get_many on the same key",
+                                          dict(case0, keys_not_found=lost[:8], rotation=sorted(map(str, hc.hasher.nodes))), tags=["failover-agreement"])
+    finally:
+        hash_mod_.time = real_time_
     # ---- merging the answers: set_many reports exactly the keys that were not stored, whichever server they live on; node names are the
     #      published canonical spellings whatever way the server was written (host without port, unix:, IPv6 brackets)
     spelled = [["h1", "h2:11212", ("h3", 11213)], ["unix:/tmp/x.sock", "h1:1", "/tmp/y.sock"], ["[::1]:11211", "[fe80::2]", ("10.0.0.9", 11211)],
